@@ -1,5 +1,7 @@
 import Pyxv.Model.Json
 import Pyxv.Model.Warnings
+import Pyxv.Model.WarningsItext
+import Pyxv.Model.OpsItext
 /-! Driver operations for the warnings slice (C20). -/
 namespace Pyxv.Warn
 open Lean Pyxv
@@ -88,6 +90,16 @@ def opsWarn (op : String) (j : Json) : Option (Except String Json) :=
       pure (Json.mkObj [("bad", jstrs (languagesWithBadTags isTag langs)),
         ("model", wsToJson (ianaWarning isTag langs)), ("spec", wsToJson (Spec.ianaDueW isTag langs)),
         ("codes", Json.arr (langs.map fun l => match langCode l with | some c => jstr c | none => Json.null).toArray)])
+  | "warn.iana_survey" => some do
+      -- the language set comes from the itext model run on the built survey
+      let x ← Itext.surveyOfJson (← j.getObjVal? "survey")
+      let tags ← getStrList j "tags"
+      let isTag := fun c => tags.contains c
+      match surveyLanguages x with
+      | none => pure (Json.mkObj [("outcome", "unsupported")])
+      | some langs =>
+        pure (Json.mkObj [("outcome", "ok"), ("langs", jstrs langs),
+          ("model", wsToJson (ianaOfSurvey isTag x)), ("spec", wsToJson (Spec.ianaDueOfSurvey isTag x))])
   | "warn.workbook" => some do
       let wb ← wbOfJson j
       if !wb.sheetNames.all isAscii then pure (Json.mkObj [("outcome", "unsupported"), ("why", "non-ASCII sheet name")]) else
